@@ -306,7 +306,7 @@ def gram_factor_checks(prog, ctx, fi, rule, mass_names=None, lv=None):
     for n in c.nodes:
         if n.kind == "stmt" and isinstance(n.ast, ast.AugAssign) and isinstance(n.ast.op, ast.Mult) and isinstance(n.ast.target, ast.Name) \
                 and n.ast.target.id in mass_names and n.idx in c.reachable():
-            out.append((n, R.resolve_locals(fi, tm.term(n.ast.value), n, tm)))      # temporaries such as `h = 2 ** (l - 1)` are looked through
+            out.append((n, R.normalise_positions(fi, tm.term(n.ast.value), n, tm)))      # temporaries such as `h = 2 ** (l - 1)` and per-dimension tables `f[k]` are looked through
     return out
 
 
